@@ -209,6 +209,11 @@ func (x *Exec) havocCall(st *State, sig *types.Signature, hint string) Val {
 	}
 	var keeps []kept
 	for _, t := range x.protect {
+		if t.all {
+			// all(T.f): the whole map survives
+			keeps = append(keeps, kept{t, vc.heapGet(st, t.key, t.sort)})
+			continue
+		}
 		keeps = append(keeps, kept{t, Select(vc.heapGet(st, t.key, t.sort), t.ref)})
 	}
 	for _, t := range st.private {
@@ -218,6 +223,10 @@ func (x *Exec) havocCall(st *State, sig *types.Signature, hint string) Val {
 	st.epoch = vc.epochSeq
 	st.heap = map[string]Term{}
 	for _, k := range keeps {
+		if k.t.all {
+			vc.assume(st.pc, Eq(vc.heapGet(st, k.t.key, k.t.sort), k.old))
+			continue
+		}
 		vc.assume(st.pc, Eq(Select(vc.heapGet(st, k.t.key, k.t.sort), k.t.ref), k.old))
 	}
 	nh := vc.heapGet(st, "$alloc", as)
@@ -502,6 +511,23 @@ func (x *Exec) modTargets(fc *FuncContract, env *SpecEnv) ([]modTarget, error) {
 func (x *Exec) designator(e Expr, env *SpecEnv) ([]modTarget, error) {
 	vc := x.vc
 	switch t := e.(type) {
+	case *EIdent:
+		// a package-level variable of the contract's package: its own cell
+		if env.pkg != nil {
+			if _, isVar := env.pkg.Scope().Lookup(t.Name).(*types.Var); isVar {
+				if sp := x.eng.prog.Package(env.pkg); sp != nil {
+					if g, ok := sp.Members[t.Name].(*ssa.Global); ok {
+						gt := g.Type().(*types.Pointer).Elem()
+						switch gt.Underlying().(type) {
+						case *types.Struct, *types.Array:
+						default:
+							key, hs := vc.cellKey(gt)
+							return []modTarget{{key: key, sort: hs, ref: vc.globalRef(g)}}, nil
+						}
+					}
+				}
+			}
+		}
 	case *EStar:
 		v, err := x.evalSpec(t.X, env)
 		if err != nil {
